@@ -148,6 +148,11 @@ func c19Scenarios(thorough bool) (out []*hx.Scenario, bounds []int) {
 	add("conc", concScenario(concCfg{Kids: []int{0, 3}, InFor: true}), 1)
 	// pool requests
 	ok, pn := reqSpec{Mode: modeOK, Other: true}, reqSpec{Mode: modePanic}
+	nr := reqSpec{Mode: modeNoRet, Other: true}
+	for _, meth := range []string{"Execute", "ExecuteConcurrent", "ExecuteMixModel", "ExecuteDAGModel", "ExecuteSelectedRules"} {
+		// a request whose result map stays empty, the client keeps (and re-reads) it while the instance serves the next ones
+		add("pool", poolScenario(poolCfg{Prop: "C17", Min: 1, Max: 2, EM: engine.SortModel, Method: meth, Clients: [][]reqSpec{{nr, ok}, {ok, nr}}}), 1)
+	}
 	for _, meth := range []string{"Execute", "ExecuteRulesWithSpecifiedEM", "ExecuteConcurrent", "ExecuteDAGModel", "ExecuteNSortMConcurrent"} {
 		add("pool", poolScenario(poolCfg{Prop: "C17", Min: 1, Max: 2, EM: engine.SortModel, Method: meth, Clients: [][]reqSpec{{ok}, {pn}, {ok}}, Phase2: true}), 1)
 		add("pool", poolScenario(poolCfg{Prop: "C17", Min: 1, Max: 2, EM: engine.SortModel, Method: meth, Clients: [][]reqSpec{{ok, ok}, {ok, pn}}}), 1)
@@ -213,12 +218,12 @@ func init() {
 	hx.Register(&hx.Prop{
 		ID:          "C19",
 		Workers:     func(string) int { return 16 },
-		BudgetQuick: 170 * time.Second,
+		BudgetQuick: 300 * time.Second,
 		BudgetThor:  30 * time.Minute,
 		Kind:        "schedules",
-		Rule: "happens-before race monitor (vector clocks; edges: unlock->lock, RUnlock->Lock, WaitGroup.Done->Wait, go statement) over the hooked shared-memory accesses of every explored execution of: all goroutine-spawning engine models (4 rules, one failing, called twice), conc blocks (incl. every pair of statement kinds in which one touches the local store or calls a method of an object held in a local), pool request scenarios (3 clients / reuse / panicking request / conservation phase) through 5 execute methods, every update kind || every pool execution model, update from inside a rule, every management call (5 updates incl. clear, SetExecModel, 5 queries) || two executions, and every management call || every update; " +
-			"each scenario explored under every schedule with <=2 (thorough 3) deviations from the default scheduler (delay bounding), then re-explored with every racy access site turned into a scheduling point until no new racy site appears. Observer calls create NO happens-before edges. " + fmt.Sprint("Oracle: no two conflicting accesses unordered by happens-before"),
-		Assume: []string{"accesses the instrumenter does not hook (slice elements, state reached only through reflect) are seen only by the free-running `go test -race`-style cross-check, not by this check", "sequential consistency for the explored control flow"},
+		Rule: "happens-before race monitor (vector clocks; edges: unlock->lock, RUnlock->Lock, WaitGroup.Done->Wait, go statement) over the hooked shared-memory accesses of every explored execution of: all goroutine-spawning engine models (4 rules, one failing, called twice), conc blocks (incl. every pair of statement kinds in which one touches the local store or calls a method of an object held in a local), pool request scenarios (3 clients / reuse / panicking request / a request whose result map stays empty / conservation phase; the client's own reads of the result map it was handed are accesses too) through 5 execute methods, every update kind || every pool execution model, update from inside a rule, every management call (5 updates incl. clear, SetExecModel, 5 queries) || two executions, and every management call || every update; " +
+			"each scenario explored under every schedule with <=2 (thorough: 3 for every third scenario, and the larger scenario list) deviations from the default scheduler (delay bounding), then re-explored with every racy access site turned into a scheduling point until no new racy site appears. Observer calls create NO happens-before edges. " + fmt.Sprint("Oracle: no two conflicting accesses unordered by happens-before"),
+		Assume: []string{"accesses the instrumenter does not hook (arrays, strings, state reached only through reflect) are seen only by the free-running `go test -race`-style cross-check, not by this check", "sequential consistency for the explored control flow"},
 		Run: func(c *hx.Ctx) {
 			raceCrossCheck(c)
 			scs, bounds := c19Scenarios(c.Thorough())
@@ -230,6 +235,9 @@ func init() {
 				b := bounds[i]
 				if b > 0 {
 					b = delayBound(c, b)
+					if c.Thorough() && i%3 != 0 {
+						b = 2 // the third deviation for every third scenario (all of them do not finish in the budget)
+					}
 				}
 				if !c.Mine(i) {
 					continue // not split across workers: the racy-site fix-point must see the whole schedule tree
